@@ -34,11 +34,14 @@
 (* there by an independent oracle and logged as a boolean.                  *)
 (*                                                                         *)
 (* Named deviations of the code from the intended design are explicit:      *)
-(*   FollowRetries = FALSE : StartFollowChain's errChan is a nil channel    *)
-(*   stack "follow" has no appendStore                                      *)
 (*   tryNode has no per-peer timeout; only Run's expiry cancels a stream    *)
-(*   resync mode puts any verified round into the raw store                 *)
-(*   the check aborts when Last() of a chained trimmed store is unreadable   *)
+(*     (F30 follow, F31 repair: still as coded)                             *)
+(*   the check aborts when Last() of a chained trimmed store is unreadable  *)
+(*     (F33: still as coded)                                                *)
+(* Repaired in /repo, kept as switches so that the old behaviour can be      *)
+(* explored again: FollowRetries (F3: errChan was nil), FollowAppend (F4:   *)
+(* no appendStore in the follow stack), ResyncChecksRound (F32: resync      *)
+(* wrote any verified round into the raw store).                            *)
 (***************************************************************************)
 EXTENDS Naturals, Sequences, FiniteSets, TLC
 
@@ -53,7 +56,9 @@ CONSTANTS Peers,         \* peer ids
           Targets,       \* requested rounds (0 = follow for ever)
           Corruptions,   \* repair mode: set of sets of <<round, "del"|"bad">>
           NT,            \* slots for concurrently alive Sync goroutines
-          FollowRetries, \* FALSE = as coded (nil errChan)
+          FollowRetries, \* TRUE = as coded since fix F3 (FALSE: errChan was a nil channel, no retry ever)
+          FollowAppend,  \* TRUE = as coded since fix F4 (FALSE: the follow stack had no appendStore)
+          ResyncChecksRound, \* TRUE = as coded since fix F32 (FALSE: resync wrote any verified round)
           MaxAgg,        \* aggregator puts (run mode)
           QCap,          \* modelled capacity of s.newReq (3 in the code)
           History,       \* TRUE: keep the last observable step in `obs` (off in liveness configs)
@@ -131,7 +136,8 @@ Verified(t) == t \in {"good", "wrong"}
 
 \* s.store.Put of a VERIFIED beacon of `round` (not resync).
 \*   stack "full"   : callback -> append -> scheme -> discrepancy -> base   (chainstore.go)
-\*   stack "follow" : callback -> scheme -> base                            (StartFollowChain)
+\*   stack "follow" : callback -> scheme -> base              (StartFollowChain before fix F4;
+\*                    since then it builds callback -> append -> scheme -> base)
 SecurePut(stack, chained, al, sl, round) ==
   IF stack = "full"
     THEN IF round = al THEN "already"                    \* ErrBeaconAlreadyStored (same bytes: BLS uniqueness)
@@ -140,7 +146,7 @@ SecurePut(stack, chained, al, sl, round) ==
          ELSE "ok"
     ELSE IF chained /\ round # sl + 1 THEN "err" ELSE "ok"
 
-StackOf(mode) == IF mode = "follow" THEN "follow" ELSE "full"
+StackOf(mode) == IF mode = "follow" /\ ~FollowAppend THEN "follow" ELSE "full"
 
 \* CheckPastBeacons on a trimmed store: chained schemes read the previous
 \* signature from the previous round's entry.
@@ -272,8 +278,13 @@ TaskItem(i) ==
                t2(x) == [x EXCEPT !.taint = @ \/ IsLie(it.t, t.rfrom > 0, it.round, hb, t.rfrom..t.upTo)]
                \* after a successful Put: `s.newSyncedBeacon <- beacon` (succeeds at once when the slot is free)
                stored(x) == IF notif = 0 THEN Continue(x) ELSE [x EXCEPT !.st = "notify"] IN
-           IF t.rfrom > 0
-             THEN \* resync: insecureStore.Put, no check at all
+           IF t.rfrom > 0 /\ ResyncChecksRound /\ it.round \notin t.rfrom..t.upTo
+             THEN \* resync: a round that was not requested abandons the peer (fix F32)
+                  /\ UNCHANGED <<store, alast, slast, notif>>
+                  /\ tasks' = [tasks EXCEPT ![i] = [t1 EXCEPT !.st = "next"]]
+                  /\ obs' = H([kind |-> "rejected", t |-> "unrequested"])
+           ELSE IF t.rfrom > 0
+             THEN \* resync: insecureStore.Put of a requested (or, before F32, any) verified round
                   /\ store' = [store EXCEPT ![it.round] = "ok"]
                   /\ UNCHANGED <<alast, slast>>
                   /\ tasks' = [tasks EXCEPT ![i] = stored(t2(t1))]
